@@ -99,7 +99,7 @@ def _check_schedule(case):
     import logging
     logging.disable(logging.CRITICAL)
     from fairlearn.adversarial import AdversarialFairnessClassifier, AdversarialFairnessRegressor
-    n, bs, epochs, max_iter, stop_at, layout, reg, ret_none = case
+    n, bs, epochs, max_iter, stop_at, layout, reg, ret_none = case[:8]
     fp = fingerprint(case)
     X = np.arange(n, dtype=float).reshape(-1, 1)
     A = np.arange(n, dtype=float) + 0.5                       # continuous: passed through unchanged, identifies the row
@@ -120,14 +120,22 @@ def _check_schedule(case):
     cls = AdversarialFairnessRegressor if reg else AdversarialFairnessClassifier
     est = cls(backend=_recording_engine(), predictor_model=[], adversary_model=[], epochs=epochs, batch_size=bs, shuffle=False, callbacks=cbs)
     est.max_iter = max_iter      # max_iter is a parameter of the base class only; the public classes leave it at -1, so it is set as attribute
-    replay = {"n": n, "batch_size": bs, "epochs": epochs, "max_iter": max_iter, "stop_at_step": stop_at, "callbacks": layout,
+    replay = {"history": ("fit once before, warm_start=%s" % (case[8] == "warm")) if len(case) > 8 and case[8] else "fresh estimator",
+              "n": n, "batch_size": bs, "epochs": epochs, "max_iter": max_iter, "stop_at_step": stop_at, "callbacks": layout,
               "estimator": cls.__name__, "X": X.tolist(), "y": y.tolist(), "sensitive_features": A.tolist()}
 
     def viol(which, what, got, exp):
         return (nontrivial, fp, (f"C17:fit.schedule:{which}", f"{what}: got {repr(got)[:200]}, first-principles {repr(exp)[:200]} "
-                                 f"[{cls.__name__} n={n} batch_size={bs} epochs={epochs} max_iter={max_iter} stop_at={stop_at} callbacks={layout}]",
+                                 f"[{cls.__name__} n={n} batch_size={bs} epochs={epochs} max_iter={max_iter} stop_at={stop_at} callbacks={layout}{' refit:' + str(case[8]) if len(case) > 8 and case[8] else ''}]",
                                  dict(replay, got=repr(got)[:500], expected=repr(exp)[:500])))
+    refit = len(case) > 8 and case[8]
     try:
+        if refit:
+            # history: the same estimator object was fitted before (warm_start on/off); the schedule of THIS fit must be the documented one again
+            est.warm_start = (refit == "warm")
+            est.fit(X, y, sensitive_features=A)
+            est.backendEngine_.calls = []
+            seen[0].clear(), seen[1].clear()
         r = est.fit(X, y, sensitive_features=A)
     except Exception as ex:
         return viol("raises", f"fit raised {type(ex).__name__}", repr(ex)[:200], "a fitted estimator")
@@ -224,7 +232,8 @@ def _check_pf(case):
         return viol("fit-raises", f"fit raised {type(ex).__name__}", repr(ex)[:200], "a fitted estimator")
     try:
         for i, (lo, hi) in enumerate(slices):
-            kw = {"classes": np.unique(y)} if (i == 0 and kind != "continuous") else {}
+            # `classes` at the first call, and - for every second case - again at every later call (the usual scikit-learn partial_fit loop idiom)
+            kw = {"classes": np.unique(y)} if (kind != "continuous" and (i == 0 or cfg["seed"] % 2)) else {}
             e_pf.partial_fit(X[lo:hi], y[lo:hi], sensitive_features=a[lo:hi], **kw)
     except Exception as ex:
         return viol("partial_fit-raises", f"partial_fit on slice {slices[i]} raised {type(ex).__name__}", repr(ex)[:200], "a training step")
@@ -316,6 +325,8 @@ def run_bounded(rep):
             continue
         for reg in ((bool(i % 2),) if quick else (False, True)):
             sched.append((n, bs, ep, mi, st, lay, reg, bool((i // 2) % 2)))
+    # refit histories (every 7th configuration, with warm_start on and off): the step counter, callbacks and slices start afresh
+    sched += [c + (("warm", "cold")[j % 2],) for j, c in enumerate(sched[::7])]
     run_cases(rep, "schedule_recording_rtc",
               rule="every n in 1..7 x batch_size %s x epochs %s x max_iter %s (not both -1) x stop step %s x callback layout %s, %s; recording "
                    "BackendEngine; oracle: loop schedule from the statement; non-trivial = at least 2 steps; distinct by full case"
